@@ -96,6 +96,16 @@ def main(argv=None):
             g[2] = g[2] or h[2]
         viols.extend(m["viols"])
 
+    rec_path = os.environ.get("VMC_RECORD_TABLES")
+    if rec_path:
+        tables = {}
+        for name, m in merged.items():
+            for fid, key, dev in m.get("records", []):
+                tables.setdefault(fid, {})[key] = dev
+        with open(rec_path, "w") as f:
+            json.dump(tables, f, indent=0, sort_keys=True)
+        print("recorded deviation tables for %s -> %s" % (sorted(tables), rec_path))
+        return 0
     level = mod.LEVEL
     cov = {
         "evaluations": tot["evals"],
